@@ -189,6 +189,9 @@ type ExecOpts struct {
 	Trace         bool
 	FullBytes     bool // vnd.Root/Sig/... fully symbolic instead of 5 symbolic bytes
 	NoBatch       bool // discharge every assertion with its own query
+	// LogEnabled: zerolog events report Enabled() (trace-level logging on), so blocks guarded by
+	// `if e := log.Trace(); e.Enabled()` are executed; default: every event is disabled
+	LogEnabled bool
 }
 
 type Violation struct {
